@@ -581,3 +581,46 @@ def c03_badarg(i):
     exec(src[start:end], ns)
     why = ns['call_bad'](i)
     return why is not None, f'{ns["BAD_ARGS"][i][:3]}: {why}'
+
+
+# ------------------------------------------------------------------ C10
+@replay('c10_trigger')
+def c10_trigger(text, flag, phrase):
+    import pytrs
+    d = pytrs.PLSSDesc('T154N-R97W Sec 14: NE/4 ' + text)
+    hit = [(f, c) for f, c in d.w_flag_lines if f == flag]
+    ok = flag in d.w_flags and any(phrase.lower() in c.lower() or phrase.lower().split()[0] in c.lower() for f, c in hit)
+    return not ok, f'w_flags {d.w_flags} lines {d.w_flag_lines}'
+
+
+@replay('c10_cluster')
+def c10_cluster(text, flag, words):
+    import pytrs
+    d = pytrs.PLSSDesc('T154N-R97W Sec 14: ' + text)
+    lines = [c for f, c in d.w_flag_lines if f == flag]
+    missing = [w for w in words if not any(w in c for c in lines)]
+    return bool(missing), f'{text!r}: trigger words {missing} are in no {flag!r} flag context; flag lines {d.w_flag_lines}'
+
+
+@replay('c10_flags')
+def c10_flags(text, config):
+    import pytrs
+    from props.c10_ref import flags_shape, contains_all
+    d = pytrs.PLSSDesc(text, config=config)
+    for name, obj in [('description', d)] + [(f'tract {i}', t) for i, t in enumerate(d.tracts)]:
+        why = flags_shape(obj)
+        if why:
+            return True, f'{name}: {why}'
+    for i, t in enumerate(d.tracts):
+        for attr in ('w_flags', 'e_flags', 'w_flag_lines', 'e_flag_lines'):
+            if not contains_all(getattr(t, attr), getattr(d, attr)):
+                return True, f'tract {i} lacks some of the description\'s {attr}: {getattr(t, attr)} vs {getattr(d, attr)}'
+    if any(t.trs_is_error() for t in d.tracts) and not (d.e_flags and d.desc_is_flawed):
+        return True, 'error Twp/Rge/Sec without an error flag'
+    if bool(d.e_flags) != bool(d.desc_is_flawed):
+        return True, 'desc_is_flawed disagrees with e_flags'
+    low = text.lower() if 'segment' not in (config or '') else ''
+    for word, flag in (('wellbore', 'well'), ('less and except', 'less_except')):
+        if word in low and not any(f == flag and word in c.lower() for f, c in d.w_flag_lines):
+            return True, f'{word!r} present but no {flag!r} flag line contains it: {d.w_flag_lines}'
+    return False, f'flags ok: {d.w_flags} {d.e_flags}'
